@@ -241,6 +241,15 @@ def _(vm, a, ci):
     return It('list', out, 0)
 
 
+@path('str::from_utf8', 'core::str::from_utf8', 'std::str::from_utf8', 'from_utf8', 'str::converts::from_utf8', 'String::from_utf8')
+def _(vm, a, ci):
+    v = a[0]
+    while isinstance(v, Ref): v = vm.ref_get(v)
+    if isinstance(v, (BStr, SymStr)): return ok(v)             # a byte view of text the VM holds as characters: valid by construction
+    if isinstance(v, Adt) and v.ty == 'Vec': return ok(_bytes_to_str(vm, v))
+    raise Unmodelled(f'from_utf8 of {v!r}'[:100])
+
+
 @path('String::truncate')
 def _(vm, a, ci):
     cur = S(vm, a[0]); n = a[1]
